@@ -90,6 +90,8 @@ def _hostile_samples(rng, edges, tdtype, n, T):
     x = x.astype(dt)
     # guarantee in-range samples in every column
     x[0] = dt.type((lo + hi) / 2) if dt.kind == 'f' else dt.type(np.clip(round((lo + hi) / 2), np.iinfo(dt).min, np.iinfo(dt).max))
+    if not (lo <= float(x[0, 0]) < hi):
+        x[0] = dt.type(lo) if dt.kind == 'f' else dt.type(np.clip(math.ceil(lo), np.iinfo(dt).min, np.iinfo(dt).max))
     return x, n_edge, n_ulp
 
 
@@ -130,6 +132,7 @@ def _mi(t, case, rng):
         nb = int(rng.choice([1, 2, 5, 16, 128]))
         spec['bins_number'] = nb
         x = (rng.normal(0, 20, (n, T))).astype(tdtype) if np.dtype(tdtype).kind == 'f' else rng.integers(0, 60, (n, T)).astype(tdtype)
+        x[0, 0], x[1, 0] = 0, 59         # the first batch always spans a non-empty window (a constant first batch cannot define bins)
         n_edge = n_ulp = 0
     else:
         edges = _edges(rng, style, tdtype)
@@ -137,6 +140,8 @@ def _mi(t, case, rng):
         spec['edges_as'] = ['array', 'list'][int(rng.integers(2))]
         x, n_edge, n_ulp = _hostile_samples(rng, edges, tdtype, n, T)
     sizes = [n] if rng.random() < 0.5 else gen.split_sizes(rng, n, kmax=3)
+    if style == 'bins_only' and sizes[0] < 2:
+        sizes = [2, n - 2]
     obj = subjects.make(spec)
     pos = 0
     for s in sizes:
@@ -187,7 +192,7 @@ def _mi(t, case, rng):
         ext = np.concatenate([held_edges[0] - w * np.arange(a, 0, -1), held_edges, held_edges[-1] + w * np.arange(1, b + 1)])
         # keep only the samples that were in range before, and move the last-edge samples strictly inside
         keep = x.astype(float)
-        xin = np.where((keep >= held_edges[0]) & (keep < held_edges[-1]), keep, held_edges[0]).astype(x.dtype)
+        xin = np.where((keep >= held_edges[0]) & (keep < held_edges[-1]), x, x[0][None, :])      # row 0 is in range by construction
         o1 = subjects.make(dict(spec, bin_edges=held_edges.tolist()))
         o2 = subjects.make(dict(spec, bin_edges=ext.tolist()))
         o1.update(xin, data)
